@@ -205,3 +205,72 @@ Proof.
   destruct (lookup_gen gen k) as [f|]; [|discriminate]. destruct (lookup_model k) as [g|]; [|discriminate].
   apply fields_eqb_eq in H. subst. eauto.
 Qed.
+
+(* ------------------------------------------------------------------------------------------ *)
+(** * Package-level state (gen/Globals.v, regenerated by harness/gen/globals.go)
+
+    The models of the codec, digest, fee, script and address functions are FUNCTIONS: the same arguments give the
+    same result, whatever was computed before and whatever other goroutines do.  That is true of the Go code only
+    if no package-level variable of the packages involved can change after initialisation (a shared serialisation
+    buffer, a "zero hash" constant that is written through, a package-level hasher, a memo table).  The scan
+    classifies every package-level variable (mutated after init / a reference to it handed out); [pkg_state_ok]
+    asks that none of the packages a property's code lives in has such a variable. *)
+Definition rawglobal := (string * string * string * bool * bool * string)%type.
+Definition rg_pkg (g : rawglobal) : string := let '(p, _, _, _, _, _) := g in p.
+Definition rg_mutated (g : rawglobal) : bool := let '(_, _, _, m, _, _) := g in m.
+Definition rg_escapes (g : rawglobal) : bool := let '(_, _, _, _, e, _) := g in e.
+
+Definition packages : list (string * list string) := [
+  ("C01", ["bt"; "bscript"]); ("C02", ["bt"; "bscript"; "sighash"]); ("C03", ["bt"; "bscript"; "sighash"]);
+  ("C04", ["bt"; "bscript"; "sighash"; "unlocker"; "interpreter"; "errs"; "scriptflag"]);
+  ("C05", ["interpreter"; "errs"; "scriptflag"; "bscript"; "bt"; "sighash"]);
+  ("C06", ["interpreter"; "errs"; "scriptflag"; "bscript"; "bt"; "sighash"]);
+  ("C07", ["interpreter"; "errs"; "scriptflag"; "bscript"; "bt"; "sighash"; "debug"]);
+  ("C08", ["interpreter"; "errs"; "scriptflag"; "bscript"; "bt"; "sighash"]);
+  ("C09", ["bt"; "bscript"]); ("C10", ["bt"; "bscript"]); ("C11", ["bt"; "bscript"]); ("C12", ["bt"; "bscript"]);
+  ("C13", ["bscript"; "interpreter"; "errs"]); ("C14", ["bscript"; "bt"]); ("C15", ["bscript"; "bt"]);
+  ("C16", ["bt"; "bscript"]); ("C17", ["bscript"]);
+  ("C18", ["bt"; "interpreter"; "errs"; "scriptflag"; "bscript"; "sighash"]);
+  ("C19", ["interpreter"; "errs"; "scriptflag"; "bscript"; "bt"; "sighash"; "debug"]);
+  ("C20", ["ord"; "bt"; "bscript"; "sighash"; "unlocker"; "interpreter"; "errs"; "scriptflag"])
+].
+Definition packages_of (pid : string) : list string :=
+  match find (fun g => fst g =? pid) packages with Some g => snd g | None => [] end.
+
+Definition pkg_state_ok (gl : list rawglobal) (pid : string) : bool :=
+  negb (match gl with [] => true | _ => false end) &&
+  negb (match packages_of pid with [] => true | _ => false end) &&
+  forallb (fun g => negb (existsb (String.eqb (rg_pkg g)) (packages_of pid)) || (negb (rg_mutated g) && negb (rg_escapes g))) gl.
+
+Lemma pkg_state_ok_spec : forall gl pid, pkg_state_ok gl pid = true ->
+  forall g, In g gl -> In (rg_pkg g) (packages_of pid) -> rg_mutated g = false /\ rg_escapes g = false.
+Proof.
+  intros gl pid H g Hg Hp. unfold pkg_state_ok in H. apply andb_prop in H as [_ H].
+  rewrite forallb_forall in H. specialize (H g Hg). apply orb_prop in H as [H|H].
+  - apply negb_true_iff in H. exfalso. assert (E : existsb (String.eqb (rg_pkg g)) (packages_of pid) = true).
+    { apply existsb_exists. exists (rg_pkg g). split; [exact Hp | apply String.eqb_refl]. }
+    congruence.
+  - apply andb_prop in H as [H1 H2]. apply negb_true_iff in H1, H2. auto.
+Qed.
+
+(** property identifiers as constants (the theorem files open various notation scopes) *)
+Definition pC01 : string := "C01".
+Definition pC02 : string := "C02".
+Definition pC03 : string := "C03".
+Definition pC04 : string := "C04".
+Definition pC05 : string := "C05".
+Definition pC06 : string := "C06".
+Definition pC07 : string := "C07".
+Definition pC08 : string := "C08".
+Definition pC09 : string := "C09".
+Definition pC10 : string := "C10".
+Definition pC11 : string := "C11".
+Definition pC12 : string := "C12".
+Definition pC13 : string := "C13".
+Definition pC14 : string := "C14".
+Definition pC15 : string := "C15".
+Definition pC16 : string := "C16".
+Definition pC17 : string := "C17".
+Definition pC18 : string := "C18".
+Definition pC19 : string := "C19".
+Definition pC20 : string := "C20".
